@@ -1,7 +1,7 @@
 """C03 - garbage collection is invisible and never loses a live value (structural clauses)."""
 import re
 
-from kern import (CallGraph, ValueBearing, all_aggregates, bool_call_edges, calls_by_name, callers, field_reads_of,
+from kern import (CallGraph, ValueBearing, all_aggregates, bool_call_edges, calls_by_name, callers, field_reads_of, field_uses_of, short_fn,
                   origins, top_fn)
 
 DESCRIPTION = ("C03 clauses decided: R1 every Trace impl (derived or manual) visits every field whose type can hold an "
@@ -23,7 +23,7 @@ def trace_body(F, impl):
 
 
 def coverage(ctx, F, vb, rule, key, fn, adt, traced_params=(), what="trace"):
-    reads = field_reads_of(F, fn, adt.path, "_1", depth=3)
+    reads = field_uses_of(F, fn, adt.path, "_1", depth=3)
     req = [fd for fd in adt.fields if vb.ty(fd["ty"], adt.crate, traced_params)]
     for fd in req:
         k = (fd["variant"] + "." + fd["name"]) if adt.kind == "Enum" else fd["name"]
@@ -97,6 +97,32 @@ def r1b_dead_temporaries(ctx, F):
                       % (base, ty[:60]), fn=f, line=c.line)
     ctx.info["trace_calls_on_stack_copies"] = n
     ctx.floor("C03.R1b", "trace calls on stack copies", n, 1, inventory=True)
+
+
+EARLY_EXIT = re.compile(r"Iterator::(take_while|take|skip|skip_while|step_by|find|find_map|any|all|position|nth|"
+                        r"map_while|try_for_each|try_fold)$")
+
+
+def r1c_all_elements(ctx, F):
+    """tracing visits every element of a collection: no early-terminating / skipping iterator adaptor in a trace body"""
+    n = 0
+    bodies = [f for f in F.fns.values() if f.crate in ("starlark", "starlark_map") and (
+        re.search(r"as values::trace::Trace<'v>>::trace$", top_fn(F, f).qpath)
+        or re.search(r"evaluator::Evaluator::<'v, 'a, 'e>::trace$|environment::modules::Module::<'v>::trace$|"
+                     r"heap_type::Heap::<'v>::trace_interner$", top_fn(F, f).qpath))]
+    ctx.floor("C03.R1c", "trace bodies (incl. closures)", len(bodies), 95, inventory=True)
+    for f in bodies:
+        for c in f.calls:
+            if c.bb in f.cleanup or c.indirect:
+                continue
+            if EARLY_EXIT.search(c.name):
+                n += 1
+                ctx.bad("C03.R1c", "early-exit:%s:%s" % (short_fn(top_fn(F, f).qpath), c.name.split("::")[-1]),
+                        "`%s` uses the iterator adaptor `%s` while tracing: elements after the cut-off (or skipped "
+                        "ones) are not relocated and keep pointing into the old arena"
+                        % (short_fn(top_fn(F, f).qpath), c.name.split("::")[-1]), fn=f, line=c.line)
+    if n == 0:
+        ctx.ok("C03.R1c", "no-early-exit-adaptors", "%d trace bodies inspected" % len(bodies))
 
 
 def r2_roots(ctx, F, vb):
@@ -322,6 +348,7 @@ def run(ctx):
     vb = ValueBearing(F)
     r1_trace(ctx, F, vb)
     r1b_dead_temporaries(ctx, F)
+    r1c_all_elements(ctx, F)
     r2_roots(ctx, F, vb)
     r3_points(ctx, F)
     r4_copy(ctx, F)
